@@ -526,6 +526,9 @@ def _t(SG, data):
     return SG.Tensor(np.array(data))
 
 
+LIST_DECOYS = None        # engine hook: callable returning the tensors a re-used operand list holds after a concat/stack call
+
+
 def apply_op(SG, name, xs, args):
     """Apply op `name` to tensors xs through the public API; returns Tensor or tuple."""
     sg, NF = SG.sg, SG.NF
@@ -552,8 +555,14 @@ def apply_op(SG, name, xs, args):
     if name == "pow": return xs[0] ** a["n"]
     if name == "rpow": return a["n"] ** xs[0]
     if name == "slice": return xs[0][decode_index(a["idx"])]
-    if name == "concat": return sg.concat(list(xs), a["dim"])
-    if name == "stack": return sg.stack(list(xs), a["dim"])
+    if name in ("concat", "stack"):
+        # the operands travel in a caller-owned list which the caller re-uses afterwards (a bucket refilled for the next batch):
+        # the graph must not depend on what the list holds after the call
+        bucket = list(xs)
+        try:
+            return (sg.concat if name == "concat" else sg.stack)(bucket, a["dim"])
+        finally:
+            bucket[:] = LIST_DECOYS() if LIST_DECOYS is not None else []
     if name == "unbind": return sg.unbind(xs[0], a["dim"])
     if name == "clone": return xs[0].clone()
     if name == "exp": return xs[0].exp()
